@@ -5,6 +5,7 @@ import PhysisModel.Spec.SqPackData
 import PhysisModel.Model.Dat
 import PhysisModel.Model.Extract
 import PhysisModel.Driver.C01
+import PhysisModel.Base.Mutate
 /-!
 Driver for C02.  Case grammar (one line, fields separated by single spaces):
 
@@ -69,8 +70,24 @@ def parseSections (secs : String) : Option ModelSections := do
   | [st, rt, v0, e0, i0, v1, e1, i1, v2, e2, i2] => some ⟨st, rt, v0, e0, i0, v1, e1, i1, v2, e2, i2⟩
   | _ => none
 
-def finish (units suffix : Nat) (entry : Bytes) (all : List Block) (expected : Bytes) (wf : Bool) : String :=
+def finish (units suffix : Nat) (entry : Bytes) (all : List Block) (expected : Bytes) (wf : Bool)
+    (dmg : Option (UInt64 × Nat) := none) : String :=
   let pre := filler (units * 128) 3
+  if let some (seed, k) := dmg then
+    -- `mut <seed> <k> <case>`: `k` damaged bytes in the entry (Base/Mutate.lean); the model of the
+    -- code against the code; the reader's former panic sites return `None` since the C18 fixes
+    let file := pre ++ Mutate.mutate entry seed k (bias := 384) ++ filler suffix 5
+    let show' := fun (r : Option (Option Bytes)) => match r with
+      | some (some d) => Bytes.toHex d
+      | _ => "none"
+    let ans := show' (Dat.readFromOffset (inflateOf all) file (units * 128))
+    -- a damaged stream that ends before the declared length leaves unspecified bytes in the block
+    -- (see `Inflate.inflatesToFill`): such cases are not compared
+    let ans' := show' (Dat.readFromOffset (fun c n => Physis.Inflate.inflatesToFill c n) file (units * 128))
+    if !wf then bad
+    else if ans != ans' then answer "skip" "skip" ["triv", "mut-short-stream"]
+    else answer (toString (units * 128) ++ " " ++ Bytes.toHex file) ans ["corr", "mut"]
+  else
   let file := pre ++ entry ++ filler suffix 5
   let model := Dat.readFromOffset (inflateOf all) file (units * 128)
   if wf then
@@ -273,6 +290,29 @@ def handle (line : String) : String :=
       let m ← parseMeta mt
       let s ← parseSections secs
       some (finish (← units.toNat?) (← suffix.toNat?) (packModel m s) s.all (unpackedModel m s) (modelWf s))) with
+    | some r => r
+    | none => bad
+  | ["mut", seed, k, "std", units, suffix, blocks] =>
+    match (do
+      let bs ← parseBlocks blocks
+      some (finish (← units.toNat?) (← suffix.toNat?) (packStandard bs) bs (contents bs) (standardWf bs)
+        (some ((← seed.toNat?).toUInt64, ← k.toNat?)))) with
+    | some r => r
+    | none => bad
+  | ["mut", seed, k, "tex", units, suffix, hdr, mips] =>
+    match (do
+      let hdr ← Bytes.ofHexFast hdr
+      let mips ← (mips.splitOn "|").mapM parseBlocks
+      some (finish (← units.toNat?) (← suffix.toNat?) (packTexture hdr mips) mips.flatten
+        (hdr ++ contents mips.flatten) (textureWf hdr mips) (some ((← seed.toNat?).toUInt64, ← k.toNat?)))) with
+    | some r => r
+    | none => bad
+  | ["mut", seed, k, "mdl", units, suffix, mt, secs] =>
+    match (do
+      let m ← parseMeta mt
+      let s ← parseSections secs
+      some (finish (← units.toNat?) (← suffix.toNat?) (packModel m s) s.all (unpackedModel m s) (modelWf s)
+        (some ((← seed.toNat?).toUInt64, ← k.toNat?)))) with
     | some r => r
     | none => bad
   | "idx" :: _ => Physis.Driver.C01.handle line
